@@ -1,5 +1,7 @@
 import KitProofs.Props.C02
 import KitProofs.Props.C01Code
+import KitProofs.Props.C01CodeHeader
 import KitProofs.Census
 #census KitProofs.Props.C02
 #census KitProofs.Props.C01Code
+#census KitProofs.Props.C01CodeHeader
